@@ -9,6 +9,7 @@ def itemOf (ws : List String) : Option Item :=
   | ["const", n, t, v] => do pure (.const (← n.toNat?) (← t.toNat?) (← v.toNat?))
   | ["func", n, t, b, ok] => do pure (.func (← n.toNat?) (← t.toNat?) (← b.toNat?) (ok == "ok"))
   | ["typ", t, d] => do pure (.typ (← t.toNat?) (← d.toNat?))
+  | ["alias", t, u] => do pure (.alias (← t.toNat?) (← u.toNat?))
   | ["bad", _] => some .bad
   | ["boom"] => some .boom
   | _ => none
@@ -27,7 +28,8 @@ def showOpt : Option Nat → String
 def showObs : Option Obs → String
   | none => "none"
   | some o =>
-    let ty := if o.ty = 0 then "int" else if o.ty = 1 then "string" else "T"
+    let ty := if o.ty = 0 then "int" else if o.ty = 1 then "string" else if o.ty = 2 then "float64"
+              else if o.ty = 3 then "bool" else "T"
     -- a variable whose named type lost its definition cannot be read through its field
     -- an IntBind slot that was never written reads as 0
     let v := if o.cls == .ivar && o.val == none then some 0 else o.val
@@ -48,6 +50,12 @@ def stepC15 (s : St) (line : String) : St × String :=
     match arg.toNat? with
     | none => (s, "bad-op")
     | some n => (s, showObs (resolve s n))
+  | "gett" =>
+    match arg.toNat? with
+    | none => (s, "bad-op")
+    | some t => (s, match resolveType s t with
+      | none => "none"
+      | some (_, d) => s!"type def={showOpt d}")
   | "stat" => (s, s!"stat bn={s.nV} ibn={s.nI}")
   | _ => (s, "bad-op")
 
